@@ -29,6 +29,24 @@ SETUP = (comp("", "G_x1s", "P_D1(&G_px)", "x1a", "x1b", "fx1") + comp("", "G_x2s
   G_sat_x1_0 = bsat(P_D1(&G_px)); G_sat_x2_0 = bsat(P_D2(&G_px)); G_sat_y1_0 = bsat(P_D1(&G_py)); G_sat_y2_0 = bsat(P_D2(&G_py));
   G_psatX0 = G_sat_x1_0 && G_sat_x2_0; G_psatY0 = G_sat_y1_0 && G_sat_y2_0;""")
 
+NATIVE_DECL = """
+#define XSTR2(a) #a
+#define XSTR(a) XSTR2(a)
+#include <cstdlib>
+ex_t G_an, G_bn; int G_as, G_bs; ITV_T G_to0; int64_t G_z;
+ITV_T G_xs[BOX_N], G_ys[BOX_N]; BOX_T G_bx, G_by; ex_t G_pn[BOX_N]; int G_ps[BOX_N]; ITV_T G_xs0[BOX_N]; uint32_t G_fx0;
+int G_satX0, G_satY0, G_emptyX0, G_emptyY0;
+PROD_T G_px, G_py; ITV_T *G_x1s, *G_x2s, *G_y1s, *G_y2s; int G_psatX0, G_psatY0, G_sat_x1_0, G_sat_x2_0, G_sat_y1_0, G_sat_y2_0;
+"""
+def native(op, ret, two):
+    """native replay: the four component boxes are rebuilt on the heap around the counterexample values and the real function is called"""
+    pre = re.sub(r'__CPROVER_assume\((\w+ != 0)\);', r'', SETUP)
+    pre = re.sub(r'__CPROVER_assume\((.*)\);', r'PRE(operands_well_formed, \1)', pre) + "\n  PROD_T *x = &G_px, *y = &G_py;"
+    proto = "PROD_T*, PROD_T*" if two else "PROD_T*"; args = "x, y" if two else "x"
+    return {"decl": NATIVE_DECL + "extern %s real_fn(%s) __asm__(XSTR(FN_p_%s));" % (ret, proto, op), "pre": pre,
+            "call": ("real_fn(%s)" if ret == "void" else "bool r = real_fn(%s)") % args, "post": "C_p_%s_POSTS(%s)" % (op, "0" if ret == "void" else "r"),
+            "show": 'printf("  reduced flags: x=%d y=%d\\n", (int)P_REDUCED(&G_px), (int)P_REDUCED(&G_py));'}
+
 OPS1 = [("reduce", "_Bool r = "), ("is_empty", "_Bool r = "), ("is_bounded", "_Bool r = "), ("topological_closure", "")]
 OPS2 = [("contains", "_Bool r = "), ("is_disjoint_from", "_Bool r = "), ("intersection", ""), ("upper_bound", ""), ("upper_bound_if_exact", "_Bool r = "), ("difference", "")]
 
@@ -42,14 +60,14 @@ def build(tier):
             kw = dict(bounded=bound, timeout=2400, object_bits=11, defs={"BOX_D": d, "GHOST_RANGE": "((ex_t)%d)" % (1 << (u.defs["T_W"] + 1))}, split_post=False,
                       stubs=["c12_ghost.c", "c17_ghost.c", "c10_prod.c"], harness_pre=SETUP, group="product %s %s %s" % (tt, pol, red), mem_gb=20)
             for (op, lhs) in OPS1:
-                T.append(Task("%s/%s/%s/%s/dim%d" % (tt, pol, red, op, d), u, "FN_p_" + op, ["C10/product.h"], pvars(), "%sFN_p_%s(&G_px)" % (lhs, op),
+                T.append(Task("%s/%s/%s/%s/dim%d" % (tt, pol, red, op, d), u, "FN_p_" + op, ["C10/product.h"], pvars(), "%sFN_p_%s(&G_px)" % (lhs, op), native=native(op, "bool" if lhs else "void", False),
                               reach=[("point in the intersection", "G_psatX0"), ("components inconsistent", "!G_psatX0 && G_sat_x1_0")], **kw))
             for (op, lhs) in OPS2:
                 # the joins of products are the largest queries (two box joins with vector assignment, plus the reductions):
                 # 20-30 GB each; quick keeps the one that fits comfortably, thorough runs them all
                 if tier == "quick" and (op == "upper_bound_if_exact" or (op == "upper_bound" and red == "smash")): continue
                 kw2 = dict(kw, mem_gb=40) if op in ("upper_bound", "upper_bound_if_exact", "difference") else kw
-                T.append(Task("%s/%s/%s/%s/dim%d" % (tt, pol, red, op, d), u, "FN_p_" + op, ["C10/product.h"], pvars(), "%sFN_p_%s(&G_px, &G_py)" % (lhs, op),
+                T.append(Task("%s/%s/%s/%s/dim%d" % (tt, pol, red, op, d), u, "FN_p_" + op, ["C10/product.h"], pvars(), "%sFN_p_%s(&G_px, &G_py)" % (lhs, op), native=native(op, "bool" if lhs else "void", True),
                               reach=[("point in both", "G_psatX0 && G_psatY0"), ("point in x only", "G_psatX0 && !G_psatY0")], **kw2))
     return units, T
 
